@@ -73,11 +73,11 @@ def workload(res):
     thorough = res.tier == "thorough"
     seed = res.seed
     items = []
-    progs = tw.corpus_programs(seed, 4000 if thorough else 350)
+    progs = tw.corpus_programs(seed, 4000 if thorough else 600)
     items += [(t, s, "exec") for t, s in progs]
-    gens = tw.generated_programs(seed, 40000 if thorough else 2500)
+    gens = tw.generated_programs(seed, 40000 if thorough else 8000)
     items += [(t, s, "exec") for t, s in gens]
-    items += [(t, s, "eval") for t, s in tw.generated_expressions(seed, 20000 if thorough else 2000)]
+    items += [(t, s, "eval") for t, s in tw.generated_expressions(seed, 20000 if thorough else 6000)]
     # W3a: soft keywords at every identifier position of real programs
     rng = core.rng_for(seed, "derive")
     small = [p for p in progs if len(p[1]) < 60000]
@@ -91,7 +91,7 @@ def workload(res):
         if new:
             items.append(("ops:" + tag, new, "exec"))
     # W3b: PEP 695 by erasure
-    items += [("pep695:%d" % i, "", "exec") for i in range(seed * 100000, seed * 100000 + (6000 if thorough else 600))]
+    items += [("pep695:%d" % i, "", "exec") for i in range(seed * 100000, seed * 100000 + (6000 if thorough else 1500))]
     return items
 
 
